@@ -1,5 +1,5 @@
 use crate::{
-    AnyStoredVec, ChangeCursor, ReadWriteBaseVec, Result, VecIndex, VecValue, WritableVec,
+    AnyStoredVec, ChangeCursor, Error, ReadWriteBaseVec, Result, VecIndex, VecValue, WritableVec,
 };
 
 use super::{super::CompressionStrategy, ReadWriteCompressedVec};
@@ -26,6 +26,15 @@ where
         let mut c = ChangeCursor::new(bytes);
         let change =
             ReadWriteBaseVec::<I, T>::parse_change_data(&mut c, Self::SIZE_OF_T, |b| S::read(b))?;
+
+        // The record was written against this vec: whatever it kept of the previous
+        // state cannot start beyond what is stored now.
+        if change.truncated_start > self.stored_len() {
+            return Err(Error::WrongLength {
+                received: change.truncated_start,
+                expected: self.stored_len(),
+            });
+        }
 
         // No overlay map: truncated values ride in `pushed` and `stored_len`
         // is clamped to where disk still agrees with the rolled-back state.
